@@ -1,0 +1,61 @@
+//go:build verif
+
+package sim
+
+// Contracts for the verifier in /verif (comment-only file; no declarations).
+
+// ---- C17: the JSON single-model runner ----
+
+//@ func uniformParameters(params, n) returns (res)
+//@   ndmodel locations
+//@   requires n >= 0
+//@   assigns nothing
+//@   fresh res
+//@   ensures [C17.uniform-parameters] res != nil && res.rank == 2 && res.dim(0) == len(params) && res.dim(1) == n && forall(p, 0, len(params), forall(c, 0, n, res.elem(p, c) == params[p]))
+//@   loop 0 invariant 0 <= i && i <= len(params)
+//@   loop 0 invariant forall(p, 0, i, forall(c, 0, n, res.elem(p, c) == params[p]))
+//@   loop 1 invariant 0 <= j && j <= n && 0 <= i && i < len(params)
+//@   loop 1 invariant forall(p, 0, i, forall(c, 0, n, res.elem(p, c) == params[p])) && forall(c, 0, j, res.elem(i, c) == params[i])
+
+//@ func (modelValues).Find(vals, name, defaultValue) returns (v, msg)
+//@   assigns nothing
+//@   ensures [C17.find-value] (exists(k, 0, len(vals), vals[k].Name == name && v == vals[k].Value && forall(q, 0, k, vals[q].Name != name))) || (forall(k, 0, len(vals), vals[k].Name != name) && v == defaultValue)
+//@   loop 0 invariant -1 <= rangeindex && rangeindex < len(vals) && forall(q, 0, rangeindex + 1, vals[q].Name != name)
+
+//@ func (modelInputs).Find(vals, name) returns (r)
+//@   assigns nothing
+//@   ensures [C17.find-input] (forall(k, 0, len(vals), vals[k].Name != name) && r == nil) || exists(k, 0, len(vals), vals[k].Name == name && r == vals[k].Values && forall(q, 0, k, vals[q].Name != name))
+//@   loop 0 invariant -1 <= rangeindex && rangeindex < len(vals) && forall(q, 0, rangeindex + 1, vals[q].Name != name)
+
+// Interface contracts of sim.TimeSteppingModel used by the runner (assumed: every
+// catalogued model satisfies them; C04 proves the wrappers' Run and ApplyParameters).
+//@ iface TimeSteppingModel.Description(x) returns (d)
+//@   trusted "Description is a pure accessor"
+//@   assigns nothing
+//@ iface TimeSteppingModel.ApplyParameters(x, params)
+//@   trusted "ApplyParameters stores views of the parameter matrix in the model object only"
+//@   ndmodel locations
+//@   requires params != nil && params.rank == 2
+//@   assigns nothing
+//@ iface TimeSteppingModel.InitialiseStates(x, n) returns (s)
+//@   trusted "InitialiseStates returns a freshly allocated n-row state matrix"
+//@   ndmodel locations
+//@   assigns nothing
+//@   fresh s
+//@   ensures s != nil && s.rank == 2 && s.dim(0) == n
+
+//@ func (singleModel).Initialise(m) returns (err, model, inputs, states, warnings)
+//@   ndmodel locations
+//@   safety C17
+//@   assigns nothing
+//@   ensures [C17.model-and-states] implies(err.isnil, model != nil && states != nil)
+//@   ensures [C17.inputs-allocated] implies(err.isnil, inputs != nil && inputs.rank == 3 && inputs.dim(0) == 1 && inputs.dim(1) == len(desc.Inputs))
+//@   ensures [C17.missing-input-is-zero] implies(err.isnil, forall(k, 0, len(desc.Inputs), implies(forall(q, 0, len(m.Inputs), m.Inputs[q].Name != desc.Inputs[k]), forall(t, 0, inputs.dim(2), inputs.elem(0, k, t) == 0))))
+//@   ensures [C17.supplied-input-row] implies(err.isnil, forall(k, 0, len(desc.Inputs), forall(q, 0, len(m.Inputs), implies(m.Inputs[q].Name == desc.Inputs[k] && m.Inputs[q].Values != nil && forall(p, 0, q, m.Inputs[p].Name != desc.Inputs[k]), len(m.Inputs[q].Values) == inputs.dim(2) && forall(t, 0, inputs.dim(2), inputs.elem(0, k, t) == m.Inputs[q].Values[t])))))
+//@   loop 0 invariant -1 <= rangeindex && rangeindex < len(desc.Parameters) && len(params) == len(desc.Parameters)
+//@   loop 1 invariant -1 <= rangeindex && rangeindex < len(desc.Inputs)
+//@   loop 1 invariant implies(inputs != nil, inputs.rank == 3 && inputs.dim(0) == 1 && inputs.dim(1) == len(desc.Inputs) && inputs.root == inputs.ref && injective(inputs))
+//@   loop 1 invariant implies(inputs == nil, forall(k, 0, rangeindex + 1, forall(q, 0, len(m.Inputs), !(m.Inputs[q].Name == desc.Inputs[k] && m.Inputs[q].Values != nil && forall(p, 0, q, m.Inputs[p].Name != desc.Inputs[k])))))
+//@   loop 1 invariant implies(inputs != nil, forall(k, rangeindex + 1, len(desc.Inputs), forall(t, 0, inputs.dim(2), inputs.elem(0, k, t) == 0)))
+//@   loop 1 invariant implies(inputs != nil, forall(k, 0, rangeindex + 1, implies(forall(q, 0, len(m.Inputs), m.Inputs[q].Name != desc.Inputs[k]), forall(t, 0, inputs.dim(2), inputs.elem(0, k, t) == 0))))
+//@   loop 1 invariant implies(inputs != nil, forall(k, 0, rangeindex + 1, forall(q, 0, len(m.Inputs), implies(m.Inputs[q].Name == desc.Inputs[k] && m.Inputs[q].Values != nil && forall(p, 0, q, m.Inputs[p].Name != desc.Inputs[k]), len(m.Inputs[q].Values) == inputs.dim(2) && forall(t, 0, inputs.dim(2), inputs.elem(0, k, t) == m.Inputs[q].Values[t])))))
